@@ -17,9 +17,10 @@ class CapOps (R : Type) where
   /-- `int(avail * ratio)` -/
   capTrunc : Int → R → Int
 
-/-- `int()` of a non-negative capacity is its floor (ratios are non-negative: the schema minimum is 0). -/
+/-- `int()` of a capacity that is not below zero is its floor (the schema puts no lower bound on
+`allocation_ratio`, so the non-negativity is a hypothesis expressed with the operations themselves). -/
 class LawfulCapOps (R : Type) extends CapOps R where
-  trunc_spec : ∀ (a : Int) (r : R) (n : Int), 0 ≤ a → (n ≤ capTrunc a r ↔ capLt a r n = false)
+  trunc_spec : ∀ (a : Int) (r : R) (n : Int), capLt a r 0 = false → (n ≤ capTrunc a r ↔ capLt a r n = false)
 
 structure RpRow where
   id : Nat
